@@ -44,6 +44,10 @@ let rec p_expr = function
   | "dpartx" :: _sp :: parts :: pw :: r ->
       let (a, r) = p_expr r in let (i, r) = p_expr r in
       (EDynPart (a, i, nat_of_int (int_of_string parts), nat_of_int (int_of_string pw)), r)
+  | "wsc" :: r ->
+      (* harness helper that opens and closes a conditional scope while computing its second operand *)
+      (* value-identical to its operand but a FRESH node (the helper returns a new signal): e | e *)
+      let (_, r) = p_expr r in let (e, r) = p_expr r in (EOr (e, e), r)
   | "muxw" :: pw :: r ->
       (* muxWord(Bit sel, UInt arr): the upper half if sel else the lower half = arr.part(2, sel) *)
       let (sel, r) = p_expr r in let (a, r) = p_expr r in
